@@ -1,6 +1,6 @@
 (* Run09.v — case runner for C09 (harness/src/c09.rs) *)
 From Coq Require Import String.
-From LLG Require Import Base Params Sx Regex Repeat.
+From LLG Require Import Base Params Sx Regex Repeat ObjCount.
 Open Scope string_scope.
 Open Scope N_scope.
 
@@ -30,6 +30,14 @@ Definition run_case09 (x : sx) : sx :=
   else if is "rxrepeat" then
     let r := normalize (Rep (lit [97]) (N.of_nat lo) (match hi with Some h => Some (N.of_nat h) | None => None end)) in
     show (fun c => re_match r (repeat 97 c))
+  else if is "objsizes" then
+    (* (objsizes lo hi bound r has_tail): member counts admitted next to r required declared members *)
+    let r := N.to_nat (as_n (nth_sx a 3)) in
+    let t := as_bool (nth_sx a 4) in
+    match obj_plan r lo hi t with
+    | None => tagged "err" []
+    | Some _ => show (obj_admits r lo hi t)
+    end
   else if is "range" then
     show (fun c => Nat.leb lo c && match hi with Some h => Nat.leb c h | None => true end)
   else SL [SY (sym "unknown")].
